@@ -117,7 +117,7 @@ def main(chk, tier, seed):
     chk.rule = RULE
     chk.assumptions = ["unique optimum enforced by the generator (brute force)", "damping 0, noise 0, other parameters default",
                        "per-channel FIFO; synchronous rounds are enforced by the mixin itself"]
-    n = 500 if tier == "quick" else 16000
+    n = 1000 if tier == "quick" else 16000
     common.run_chunked(chk, "c05", n, nchunks=16 if tier == "quick" else 64,
                        job_extra={"nsched": 3 if tier == "quick" else 5}, timeout=3000)
     for a in ("maxsum", "amaxsum"):
